@@ -339,3 +339,6 @@ def decide_inconclusive(obs, results, cases):
     if obs.get('requests', 0) == 0 or obs.get('failed_requests', 0) == 0:
         return 'no request / no failing request was observed'
     return None
+
+
+RULE = RULE + "; fixed nested-composite trees; twin servers in one process; requests the user's switch() cannot route; unpicklable inputs; failing calls raise 8 exception classes incl. the TimeoutError family"
